@@ -335,20 +335,24 @@ func (p *Proxy) handle(conn net.Conn) {
 }
 
 func (p *Proxy) maybeCreateSession(version primitive.ProtocolVersion, keyspace, compression string) (*proxycore.Session, error) {
-	p.sessionsMu.RLock()
-	defer p.sessionsMu.RUnlock()
+	if s, ok := p.lookupSession(version, keyspace, compression); ok {
+		return s, nil
+	}
+	// The session cache is written when a session is created so this requires the write lock
+	p.sessionsMu.Lock()
+	defer p.sessionsMu.Unlock()
 	return p.maybeCreateSessionUnlocked(version, keyspace, compression)
 }
 
-func (p *Proxy) findSession(version primitive.ProtocolVersion, keyspace, compression string) (*proxycore.Session, error) {
+func (p *Proxy) lookupSession(version primitive.ProtocolVersion, keyspace, compression string) (*proxycore.Session, bool) {
 	p.sessionsMu.RLock()
 	defer p.sessionsMu.RUnlock()
-	key := sessionKey{version: version, keyspace: keyspace, compression: compression}
-	if s, ok := p.sessions[key]; ok {
-		return s, nil
-	} else {
-		return p.maybeCreateSessionUnlocked(version, keyspace, compression)
-	}
+	s, ok := p.sessions[sessionKey{version: version, keyspace: keyspace, compression: compression}]
+	return s, ok
+}
+
+func (p *Proxy) findSession(version primitive.ProtocolVersion, keyspace, compression string) (*proxycore.Session, error) {
+	return p.maybeCreateSession(version, keyspace, compression)
 }
 
 func (p *Proxy) maybeCreateSessionUnlocked(version primitive.ProtocolVersion, keyspace, compression string) (*proxycore.Session, error) {
